@@ -320,7 +320,7 @@ func c19RoundTrip(c *fw.Ctx, fixes []fix, layout geom.Layout) {
 	if !ok {
 		return
 	}
-	got := t.LineString.FlatCoords()
+	got := append([]float64{}, t.LineString.FlatCoords()...) // a copy: the track itself is let go (and overwritten) at the next read
 	if len(got)/5 != len(fixes) {
 		_, rerr := igc.Read(strings.NewReader(text))
 		c.Fail("fix-count", "track of %d fixes read back with %d fixes (decoder errors: %v)", len(fixes), len(got)/5, rerr)
@@ -342,6 +342,61 @@ func c19RoundTrip(c *fw.Ctx, fixes []fix, layout geom.Layout) {
 		}
 	}
 	c.Count("tracks_read_back")
+	// one Encoder for two tracks in a row: first a track it has to refuse (a layout
+	// without a time ordinate: as the code stands it panics; the caller recovers),
+	// then this one
+	if c.R.Chance(1, 4) {
+		var kb bytes.Buffer
+		enc := igc.NewEncoder(&kb, igc.A("XVF001 verif"))
+		func() {
+			defer func() {
+				if recover() != nil {
+					c.Count("refused_encodes_that_panicked")
+				}
+			}()
+			bad := geom.NewLineStringFlat([]geom.Layout{geom.XYM, geom.XY, geom.XYZ}[c.R.Intn(3)], []float64{1, 2, 3, 4, 5, 6})
+			enc.Encode(bad)
+		}()
+		kb.Reset()
+		var e2 error
+		if c.Guard("panic", func() { e2 = enc.Encode(ls) }) {
+			return
+		}
+		c.Eval(1)
+		c.Count("encoder_used_after_a_refused_track")
+		if e2 != nil || kb.String() != text {
+			c.Fail("history-dependent", "an Encoder that had refused another track before wrote %q (err=%v); a fresh one writes %q", clipStr(kb.String(), 200), e2, clipStr(text, 200))
+			return
+		}
+	}
+	// an A record of several kilobytes (the manufacturer text is the caller's): whatever
+	// it contains, it is one record, and the fixes after it read back as they are
+	if c.R.Chance(1, 12) {
+		n := []int{4000, 4090, 4094, 4095, 4096, 4097, 8190, 8191, 8192, 9000, 16384, 50000}[c.R.Intn(12)] + c.R.Intn(3)
+		tail := []string{"B1200004530000N00730000EA0100001000", "I013636TDS", "HFDTE010203", "B12", "\u00e9"}[c.R.Intn(5)]
+		atext := strings.Repeat("X", n-len(tail)-c.R.Intn(3)) + tail + strings.Repeat("Y", c.R.Intn(40))
+		if c.R.Bool() {
+			// the record-like text starts exactly where a 4096-byte (8192-, 16384-byte) piece of the line would
+			start := []int{4095, 4096, 4094, 8191, 8192, 12287, 16383, 4095, 8191}[c.R.Intn(9)]
+			atext = strings.Repeat("X", start) + tail + strings.Repeat("Y", c.R.Intn(40))
+		}
+		var lb bytes.Buffer
+		var e3 error
+		if c.Guard("panic", func() { e3 = igc.NewEncoder(&lb, igc.A(atext)).Encode(ls) }) {
+			return
+		}
+		if e3 == nil {
+			t3, ok := c19Read(c, lb.Bytes(), "round trip with a long A record")
+			if !ok {
+				return
+			}
+			c.Count("tracks_with_an_A_record_of_kilobytes")
+			if !model.BitsEq(t3.LineString.FlatCoords(), got) {
+				c.Fail("fix-count", "behind an A record of %d bytes the track reads back with %d fixes (%d written), or other values", len(atext)+1, t3.LineString.NumCoords(), len(fixes))
+				return
+			}
+		}
+	}
 	// the same through one bytes.Buffer the worker keeps for all its tracks, the way a
 	// pipe is used: the encoder writes into it, Read takes the stream out of it again
 	if c.R.Chance(1, 3) {
